@@ -4,6 +4,7 @@
 package cors
 
 import (
+	"fmt"
 	"sort"
 	"strings"
 
@@ -32,6 +33,55 @@ type Req struct {
 	ACRH   []string
 	Retry  bool // the filter in front of the CORS filter calls ProcessFilter twice for this request (a retrying filter); never set for a preflight; the model does not need to know: both containers get the same request
 	Serve  bool // through Container.ServeHTTP (the ServeMux may answer without reaching the filter chain) instead of Container.Dispatch
+	// Change, when set, is made BEFORE this request is sent: the route table of a WebService that is
+	// already registered in the container changes (nothing passes through the Container).
+	Change *Change
+}
+
+// Change is one change of the route table of a REGISTERED WebService.
+type Change struct {
+	Kind  string            // "route": ws.Route(r) after Container.Add | "rmroute": ws.RemoveRoute(full path of r, method of r) (SetDynamicRoutes(true))
+	Svc   int               // index into Table.Services
+	Route routing.RouteDecl // the route added / the route whose method and path are handed to RemoveRoute
+}
+
+// FullPath is Route.Path as RouteBuilder.Build computes it (concatPath, default strategy).
+func FullPath(root, rel string) string {
+	return strings.TrimRight(root, "/") + "/" + strings.TrimLeft(rel, "/")
+}
+
+// Apply is the intended effect of the change on a table (a copy is returned): Route appends to the
+// service's list; RemoveRoute drops every route of the service with that method and full path.
+func (ch *Change) Apply(tbl routing.Config) routing.Config {
+	out := routing.Config{Router: tbl.Router, Services: append([]routing.Service{}, tbl.Services...)}
+	if ch == nil || ch.Svc < 0 || ch.Svc >= len(out.Services) {
+		return out
+	}
+	s := out.Services[ch.Svc]
+	rs := []routing.RouteDecl{}
+	for _, r := range s.Routes {
+		if ch.Kind == "rmroute" && r.Method == ch.Route.Method && FullPath(s.Root, r.Rel) == FullPath(s.Root, ch.Route.Rel) {
+			continue
+		}
+		rs = append(rs, r)
+	}
+	if ch.Kind == "route" {
+		rs = append(rs, ch.Route)
+	}
+	s.Routes = rs
+	out.Services[ch.Svc] = s
+	return out
+}
+
+func (ch *Change) String(tbl routing.Config) string {
+	root := "?"
+	if ch.Svc >= 0 && ch.Svc < len(tbl.Services) {
+		root = tbl.Services[ch.Svc].Root
+	}
+	if ch.Kind == "route" {
+		return fmt.Sprintf("ws[root %q].Route(%s %q) on the registered WebService", root, ch.Route.Method, ch.Route.Rel)
+	}
+	return fmt.Sprintf("ws[root %q].RemoveRoute(%q, %q) (dynamic routes)", root, FullPath(root, ch.Route.Rel), ch.Route.Method)
 }
 
 func first(vs []string) string {
@@ -41,11 +91,50 @@ func first(vs []string) string {
 	return vs[0]
 }
 
-// Case is one line of the protocol.
+// Case is one line of the protocol. Table is the table the container is built with; requests may
+// carry changes of it (Req.Change).
 type Case struct {
 	Table routing.Config
 	F     Filter
 	Reqs  []Req
+}
+
+// HasChanges: some request of the history is preceded by a change of the route table.
+func (c *Case) HasChanges() bool {
+	for _, r := range c.Reqs {
+		if r.Change != nil {
+			return true
+		}
+	}
+	return false
+}
+
+// needsDynamic: some change needs SetDynamicRoutes(true).
+func (c *Case) needsDynamic() bool {
+	for _, r := range c.Reqs {
+		if r.Change != nil && r.Change.Kind == "rmroute" {
+			return true
+		}
+	}
+	return false
+}
+
+// TableAt is the table in force when request i is sent.
+func (c *Case) TableAt(i int) routing.Config {
+	tbl := c.Table
+	for k := 0; k <= i && k < len(c.Reqs); k++ {
+		if c.Reqs[k].Change != nil {
+			tbl = c.Reqs[k].Change.Apply(tbl)
+		}
+	}
+	return tbl
+}
+
+// Single is request i alone (without its past) on the table in force when it was sent.
+func (c *Case) Single(i int) Case {
+	rq := c.Reqs[i]
+	rq.Change = nil
+	return Case{Table: c.TableAt(i), F: c.F, Reqs: []Req{rq}}
 }
 
 // Hdr is one response header line (canonical name, value).
@@ -102,7 +191,13 @@ func (r Req) ReqSx(o Obs) *sx.Node {
 // Line is the protocol line of the case with its observations.
 func (c *Case) Line(id int, obs []Obs) string {
 	rs := sx.K("reqs")
+	tbl := c.Table
 	for i, r := range c.Reqs {
+		if r.Change != nil {
+			// the table changes here: every request behind this item is answered from the new table
+			tbl = r.Change.Apply(tbl)
+			rs.List = append(rs.List, tbl.Sx())
+		}
 		rs.List = append(rs.List, r.ReqSx(obs[i]))
 	}
 	return sx.K("cors", sx.N(id), c.F.Sx(), c.Table.Sx(), rs).String()
@@ -113,7 +208,12 @@ func (c *Case) Human(obs []Obs) map[string]interface{} {
 	tbl := routing.Human(&c.Table, routing.Req{})
 	delete(tbl, "request")
 	reqs := []interface{}{}
+	cur := c.Table
 	for i, r := range c.Reqs {
+		if r.Change != nil {
+			reqs = append(reqs, map[string]interface{}{"route_table_changes_before_the_next_request": r.Change.String(cur)})
+			cur = r.Change.Apply(cur)
+		}
 		m := map[string]interface{}{"method": r.R.Method, "path": r.R.Path, "Origin": r.Origin,
 			"Access-Control-Request-Method": r.ACRM, "Access-Control-Request-Headers": r.ACRH,
 			"content_type": r.R.CT, "accept": r.R.Accept, "via": map[bool]string{true: "ServeHTTP", false: "Dispatch"}[r.Serve], "upstream_filter_calls_ProcessFilter_twice": r.Retry}
